@@ -104,6 +104,7 @@ func RunParent(ch *Check, tier string, seed int64) int {
 	_ = os.RemoveAll(runDir)
 	_ = os.MkdirAll(runDir, 0o755)
 	defer os.RemoveAll(runDir)
+	runDirKeep := runDir
 
 	total := newResult()
 	var mu sync.Mutex
@@ -222,6 +223,17 @@ func RunParent(ch *Check, tier string, seed int64) int {
 				}
 			}
 		}
+		if !ok && f.At != nil && f.Kind != "hang" {
+			// passes on its own: does it fail, every time, after the cases that
+			// preceded it in its worker (state that survives in the process)?
+			if histConfirm(ch, &f, runDirKeep) {
+				ok = true
+				h := *f.At
+				f.Hist = &h
+				b, _ = json.MarshalIndent(f, "", " ")
+				_ = os.WriteFile(p, b, 0o644)
+			}
+		}
 		if !ok {
 			unrepro++
 			_ = os.Remove(p)
@@ -252,6 +264,9 @@ func RunParent(ch *Check, tier string, seed int64) int {
 		}
 		violations++
 		fmt.Printf("VIOLATION property=%s replay=%s\n", ch.ID, v.path)
+		if v.f.Hist != nil {
+			fmt.Printf("  history-dependent: the case passes on its own in a fresh process and fails (twice out of twice) after the preceding cases of worker %d/%d; the replay file re-runs that prefix\n", v.f.Hist.Shard, v.f.Hist.NShards)
+		}
 		fmt.Printf("  kind=%s sig=%q bucket=%q expected=%s observed=%s\n", v.f.Kind, v.f.Sig, v.f.Bucket, clip(v.f.Expected, 300), clip(v.f.Observed, 300))
 	}
 	// signatures that were counted but whose examples are all known are fine;
@@ -314,6 +329,51 @@ func RunParent(ch *Check, tier string, seed int64) int {
 		return 1
 	}
 	return 0
+}
+
+// histConfirm re-runs, twice, in fresh processes, the prefix of the worker's
+// enumeration that ended in f and reports whether f failed again both times.
+func histConfirm(ch *Check, f *Failure, dir string) bool {
+	h := f.At
+	limit := 30 * time.Minute
+	if ch.Budget != nil {
+		limit = ch.Budget(h.Tier) + 2*time.Minute
+	}
+	for i := 0; i < 2; i++ {
+		out := filepath.Join(dir, fmt.Sprintf("hist-%d-%d-%d.json", h.Shard, h.UpTo, i))
+		cmd := exec.Command(os.Args[0], "-id", ch.ID, "-tier", h.Tier, "-seed", fmt.Sprint(h.Seed),
+			"-worker", fmt.Sprintf("%d/%d", h.Shard, h.NShards), "-resume", fmt.Sprint(h.Resume), "-upto", fmt.Sprint(h.UpTo), "-out", out)
+		var errBuf cappedBuf
+		cmd.Stderr, cmd.Stdout = &errBuf, &errBuf
+		cmd.Env = append(os.Environ(), "GOMAXPROCS=2")
+		if err := cmd.Start(); err != nil {
+			return false
+		}
+		done := make(chan error, 1)
+		go func() { done <- cmd.Wait() }()
+		select {
+		case <-done:
+		case <-time.After(limit):
+			_ = cmd.Process.Kill()
+			<-done
+			return false
+		}
+		var r Result
+		b, err := os.ReadFile(out)
+		if err != nil || json.Unmarshal(b, &r) != nil {
+			return false
+		}
+		again := false
+		for _, x := range r.Failures {
+			if x.Kind == f.Kind && SameCase(x.Case, f.Case) {
+				again = true
+			}
+		}
+		if !again {
+			return false
+		}
+	}
+	return true
 }
 
 // cappedBuf keeps the first 3000 bytes written to it.
